@@ -451,6 +451,14 @@ func runHistories(r *ev.Run) {
 		variants = append(variants, chain.GenesisOptions{MinGasPrice: 1, EpochInterval: 3})
 	}
 	if prop == "C01" {
+		// every replica has a node-local upgrade backend (the real upgrade manager over its own store) and an
+		// upgrade proposal with enough yes votes is about to close: what the governance application learns from
+		// that node-local store (a descriptor already pending because the closing block, or another proposal for
+		// that height, was executed before) must not reach consensus state
+		variants = append(variants, chain.GenesisOptions{Upgrader: true, EpochInterval: 2, NodeExpiration: 14, Focus: "upgrade",
+			Prefix: []string{"gov-submit-upgrade(e0)", "gov-vote(e2,#1,yes)", "gov-vote(e1,#1,yes)"}})
+	}
+	if prop == "C01" {
 		// all entities tied and the validator limit cutting into the tie: any order-dependent
 		// step of the election makes replicas disagree
 		variants = append(variants, chain.GenesisOptions{Escrow: []uint64{1500, 2000, 2500}, MaxValidators: 2, EpochInterval: 1, NodeExpiration: 12})
@@ -521,7 +529,7 @@ func runHistories(r *ev.Run) {
 		// developer switch: km | vrf | gov
 		var keep []chain.GenesisOptions
 		for _, v := range variants {
-			if (sel == "km" && v.KeyManager) || (sel == "vrf" && v.VRF) || (sel == "gov" && v.GovMetadata) {
+			if (sel == "km" && v.KeyManager) || (sel == "vrf" && v.VRF) || (sel == "gov" && v.GovMetadata) || (sel == "upg" && v.Upgrader) {
 				keep = append(keep, v)
 			}
 		}
